@@ -2,6 +2,7 @@ CONSTANTS
   Dev = {"MissingComma"}
   Alphabet <- AlphaMem
   MaxLen = 4
+  Prune = FALSE
   DepthProbe = {256}
 INIT Init
 NEXT Next
